@@ -1,11 +1,21 @@
-import sys, json
+"""Runs the thorough-tier self-test of every property in parallel and prints one line per property:
+mutants/seeds detected, invariance under reformatting, benign refactorings without alarm."""
+import sys, json, time
 sys.path.insert(0,'/verif')
-from sa import mutations
+from sa import selftest
 from sa.run import PROPS
 from concurrent.futures import ProcessPoolExecutor
-def one(p): return p, mutations.run(p, 0)
-with ProcessPoolExecutor(16) as ex:
-    for p, r in ex.map(one, PROPS):
-        print(p, 'variants', r['variants'], 'detected', r['detected'], 'skipped', len(r['skipped']))
-        for f in r['failed']: print('   FAILED', f[:220])
-        for f in r['skipped']: print('   skipped', f[:160])
+def one(p):
+    t = time.time(); r = selftest.run(p, 0); return p, r, time.time() - t
+if __name__ == "__main__":
+    tv = td = tb = 0
+    with ProcessPoolExecutor(16) as ex:
+        for p, r, dt in ex.map(one, PROPS):
+            b = r.get("benign_refactorings", {})
+            print(p, 'variants', r['variants'], 'detected', r['detected'], 'skipped', len(r['skipped']),
+                  '| reformat-diffs', len(r['invariance_under_reformatting']['differences']),
+                  '| benign', b.get('patches'), 'alarms', len(b.get('alarms', [])), 'skipped', b.get('skipped'), f'| {dt:.0f}s')
+            tv += r['variants']; td += r['detected']; tb += b.get('patches', 0)
+            for f in r.get('failed', []): print('   FAILED', f[:260])
+            for f in r['skipped']: print('   skipped', f[:160])
+    print('total variants', tv, 'detected', td, 'benign patch runs', tb)
